@@ -27,6 +27,9 @@ type vcfg struct {
 	Fmt   int // 0 legacy magic 0, 1 legacy magic 1, 2 record batch
 	Codec CompressionCodec
 	Level int
+	// Mixed: bodies that nest several record sets (Produce request, Fetch response): every other set is of the OTHER kind
+	// (message set v1 / record batch) - a broker serves old segments as message sets and new ones as batches
+	Mixed bool
 }
 
 func (c vcfg) String() string {
@@ -34,6 +37,9 @@ func (c vcfg) String() string {
 	l := fmt.Sprint(c.Level)
 	if c.Level == CompressionLevelDefault {
 		l = "default"
+	}
+	if c.Mixed {
+		f += "+mixed"
 	}
 	return fmt.Sprintf("%s/%s/L%s", f, c.Codec.String(), l)
 }
@@ -56,6 +62,7 @@ type vslot struct {
 }
 
 type vgen struct {
+	nrec  int // record sets generated so far (cfg.Mixed)
 	cfg   vcfg
 	ctr   int
 	slots []*vslot
@@ -222,7 +229,14 @@ func (g *vgen) fillStruct(v reflect.Value) {
 		return
 	case vtRecords:
 		r := v.Addr().Interface().(*Records)
-		if g.cfg.Fmt == 2 {
+		batch := g.cfg.Fmt == 2
+		if g.cfg.Mixed {
+			if g.nrec%2 == 1 {
+				batch = !batch
+			}
+			g.nrec++
+		}
+		if batch {
 			r.recordsType = defaultRecords
 			r.RecordBatch = &RecordBatch{}
 			g.fillStruct(reflect.ValueOf(r.RecordBatch).Elem())
